@@ -39,6 +39,7 @@ type Contract struct {
 	Props     []string
 	Header    string
 	FuncName  string
+	Qualifier string // package qualifier for contracts on imported functions
 	Recv      *Param
 	RecvIface bool
 	Params    []Param
@@ -69,6 +70,9 @@ type Contract struct {
 
 func (c *Contract) Display() string {
 	short := c.Pkg[strings.LastIndex(c.Pkg, "/")+1:]
+	if c.Qualifier != "" {
+		short = c.Qualifier
+	}
 	if c.Recv != nil {
 		return fmt.Sprintf("%s.(%s).%s", short, c.Recv.Type, c.FuncName)
 	}
@@ -340,6 +344,12 @@ func parseHeader(h string) (*Contract, error) {
 	if !strings.HasPrefix(h, "func") {
 		h = "func " + h
 	}
+	// "func pkg.Name(...)": a contract for a function of another (imported) package
+	qual := ""
+	if m := qualRe.FindStringSubmatch(h); m != nil {
+		qual = m[1]
+		h = "func " + m[2] + h[len(m[0])-1:]
+	}
 	src := "package p\n" + h + " {}"
 	fs := token.NewFileSet()
 	f, err := parser.ParseFile(fs, "", src, 0)
@@ -347,7 +357,7 @@ func parseHeader(h string) (*Contract, error) {
 		return nil, fmt.Errorf("bad contract header %q: %v", h, err)
 	}
 	fd := f.Decls[0].(*ast.FuncDecl)
-	c := &Contract{Header: h, FuncName: fd.Name.Name, MaybeNil: map[string]bool{}, Loops: map[int]*LoopSpec{}}
+	c := &Contract{Header: h, FuncName: fd.Name.Name, Qualifier: qual, MaybeNil: map[string]bool{}, Loops: map[int]*LoopSpec{}}
 	if fd.Recv != nil {
 		r := fieldsToParams(fd.Recv, src, fs, "recv")
 		if len(r) != 1 {
@@ -402,6 +412,8 @@ func findTop(s, op string) int {
 	}
 	return -1
 }
+
+var qualRe = regexp.MustCompile(`^func\s+([A-Za-z_]\w*)\.([A-Za-z_]\w*)\(`)
 
 var quantRe = regexp.MustCompile(`^(forall|exists)\s+([^:]+?)\s*::`)
 
@@ -724,6 +736,9 @@ func (c *Contract) Generate() (string, error) {
 		}
 	}
 	call := c.FuncName + "(" + strings.Join(args, ", ") + ")"
+	if c.Qualifier != "" {
+		call = c.Qualifier + "." + call
+	}
 	if c.Recv != nil {
 		call = c.Recv.Name + "." + call
 	}
